@@ -73,8 +73,10 @@ def map_sources(snap, root, sources, dest, no_target_dir=False):
     """cp's mapping rule.  Returns (mapping, dest_rel) where mapping is a list of
     {"src": rel, "dst": rel, "rec": record-of-src} for every entry selected (no filtering, no -L)."""
     dest_rel = norm_rel(root, dest)
-    _, drec = resolve(snap, dest_rel) if dest_rel else ("", snap.get(""))
+    rdest, drec = resolve(snap, dest_rel) if dest_rel else ("", snap.get(""))
     dest_is_dir = drec is not None and drec["k"] == "d"
+    if dest_is_dir and rdest is not None and rdest != dest_rel and not no_target_dir:
+        dest_rel = rdest      # the destination is a symlink to a directory: entries land in the directory it points to
     out = []
     seen_dst = {}
     for s in sources:
